@@ -7,17 +7,22 @@ RULE = ("(a) T0 site inventory: every set construction in gapic/*.py and every s
         "(file, scope, kind, ordinal), must be exactly the classified table of Model/DetermSites.v; (b) T2: sort_lines, sorted() and "
         "Jinja's sort filter vs the model on generated line blocks / keyed records incl. equal keys; (c) oracle: the same "
         "CodeGeneratorRequest through `python -m gapic.cli.generate` in separate processes with different PYTHONHASHSEED, working "
-        "directory and option-file location; responses must be byte-identical. Requests stress equal sort keys (resources with equal "
+        "directory, option-file location and WALL CLOCK (an LD_PRELOAD shim, harness/native/faketime.c, shifts the real-time clock of the k-th "
+        "process by months to decades); responses must be byte-identical. Requests stress equal sort keys (resources with equal "
         "short names or names equal up to case, same module name in two packages, several retryable codes, several services, mixins). "
         "distinct = distinct request hash; non-trivial = the request has at least one equal-sort-key feature.")
 TRUSTED = [
     "Model/Determ.v: model of sorted(), Jinja sort(attribute) (stable, lower-cased key), sort_lines; a Python set = any duplicate-free enumeration",
     "Model/DetermSites.v: hand classification of each set/sort site (membership-only / totally sorted / sorted by a key that is unique under a stated hypothesis)",
     "harness/gv/c10_inventory.py (ast + a regex over template text for filter names), impl/c10_pure.py",
+    "harness/native/faketime.c: LD_PRELOAD shim over clock_gettime/gettimeofday/time (built with cc on first use; notes.clock_shim records whether it was available)",
     "PARTIAL: byte identity of the whole response is only observed on the explored requests and seeds; no theorem covers the generator as a whole",
 ]
 ASSUMES = ["keys of a keyed sort are pairwise distinct up to case (otherwise sort_by_tie_refuted applies: the set's iteration order shows)"]
 
+# seconds added to the real-time clock of the k-th process: now, +13 months, +5 years, -3 years, +37 days, +20 years ...
+CLOCK_OFFSETS = [0, 34300800, 157766400, -94608000, 3196800, 631152000, 86400 * 366, -86400 * 200]
+CLOCK_SHIM = gen.faketime_lib() is not None
 SEEDS_QUICK = ["0", "1", "2", "3"]
 SEEDS_THOROUGH = [str(i) for i in range(12)]
 
@@ -134,7 +139,8 @@ def run_seeds(args):
         d = gen.case_dir(f"c10-{idx}-{s}")          # different cwd and option-file location per process
         req = apigen.plugin_pb2.CodeGeneratorRequest(); req.ParseFromString(req_b)
         r2 = gen.with_params(req, [req.parameter], d, service_yaml=yaml, retry=retry)
-        res, err = gen.run_generator(r2, hashseed=s, cwd=d)
+        # every process also sees another wall clock (seed k: shifted by CLOCK_OFFSETS[k]); the first is the real time
+        res, err = gen.run_generator(r2, hashseed=s, cwd=d, clock_offset=CLOCK_OFFSETS[seeds.index(s) % len(CLOCK_OFFSETS)] if CLOCK_SHIM else 0)
         gen.rm(d)
         if res is None:
             errs[s] = err[-400:]
@@ -187,7 +193,7 @@ def run_sweep(ctx, n, seeds):
             sig = None
             if "_path" in (d["a"] + d["b"]) and ("equal-short-resource-name" in feats or "case-equal-resource-name" in feats):
                 sig = "determ.resource_sort_tie"
-            ctx.violation(f"response differs between PYTHONHASHSEED={d['seed_a']} and {d['seed_b']}: file {d['file']} line {d['line']}: {d['a']!r} vs {d['b']!r}",
+            ctx.violation(f"response differs between PYTHONHASHSEED={d['seed_a']} and {d['seed_b']} (other process, working directory and wall clock): file {d['file']} line {d['line']}: {d['a']!r} vs {d['b']!r}",
                           dict(case, diff=d), sig)
 
 
@@ -238,6 +244,7 @@ def run_pure(ctx):
 
 
 def run(ctx):
+    ctx.notes["clock_shim"] = CLOCK_SHIM
     run_pure(ctx)
     run_sweep(ctx, ctx.n(6, 60), SEEDS_QUICK if ctx.quick() else SEEDS_THOROUGH)
 
